@@ -32,7 +32,7 @@ func init() {
 	Register(&Rule{
 		ID:    "R-POOL",
 		Doc:   "typestate per sync.Pool object x := P.Get(): after P.Put(x) no use of x or of memory loaded from it; nothing derived from x's memory flows to a return (copy-out); a released tokenizer stack is dropped from its owner",
-		Props: []string{"C09", "C10", "C17", "C03", "C06", "C01", "C14", "C12", "C05"},
+		Props: []string{"C09", "C10", "C17", "C03", "C06", "C01", "C14", "C12", "C05", "C04", "C13"},
 		Min:   map[string]int{"C09": 7, "C10": 2, "C17": 1, "C03": 1, "C06": 5, "C01": 5, "C14": 5, "C12": 1},
 		Run:   runPool,
 	})
@@ -839,6 +839,10 @@ func runPool(c *core.Ctx) []core.Obligation {
 		}
 		if strings.HasPrefix(shortName(fn), "proto.") {
 			props = []string{"C09", "C03", "C12"}
+		}
+		if strings.HasPrefix(shortName(fn), "thrift.") {
+			// bytes handed out and then overwritten are no longer the specification's encoding of the value
+			props = []string{"C09", "C10", "C04", "C13"}
 		}
 		if n := shortName(fn); n == "json.Marshal" || n == "json.MarshalIndent" {
 			// the bytes returned are what the caller compares with encoding/json's: memory that
